@@ -863,4 +863,145 @@ Section Facts.
     - rewrite C by discriminate. split; [lia|]. split; [discriminate|reflexivity].
     - rewrite B by reflexivity. split; [lia|]. split; [discriminate|congruence].
   Qed.
+
+  (* ---------------------------------------------------------------- a rejected connection does close *)
+  (* must_flush_before_shutdown is only ever set while something is buffered *)
+  Definition MF (h : handler) : Prop := torn h = false -> must_flush h = true -> buffer h <> [].
+
+  Lemma step_must_flush h ev : torn h = false -> must_flush h = true ->
+    stp h ev =
+      match (if has_buffer h then ev_w ev else None) with
+      | Some k => let h1 := flush cfg h k in
+                  if negb (has_buffer h1) then set_torn (set_must_flush h1 false)
+                  else if reads_teared h1 then h1 else set_reads_teared h1 false
+      | None => if reads_teared h then (if has_buffer h then h else set_torn h)
+                else set_reads_teared h false
+      end.
+  Proof.
+    intros Ht Hm. unfold step. rewrite Ht, Hm. unfold handle_events, handle_writables. cbn [ev_w ev_r].
+    destruct (has_buffer h) eqn:Hb.
+    - destruct (ev_w ev) as [k|].
+      + destruct (flush_spec h k) as (_ & Hm1 & _ & _ & _). cbv zeta.
+        set (h1 := flush cfg h k) in *. rewrite Hm1, Hm. cbn [andb].
+        destruct (negb (has_buffer h1)) eqn:Hb1; [reflexivity|].
+        destruct (reads_teared h1) eqn:Hr1.
+        * rewrite Hb1. reflexivity.
+        * unfold handle_readables. hsimpl. reflexivity.
+      + destruct (reads_teared h) eqn:Hr.
+        * rewrite Hb. reflexivity.
+        * unfold handle_readables. hsimpl. reflexivity.
+    - destruct (reads_teared h) eqn:Hr.
+      + rewrite Hb. reflexivity.
+      + unfold handle_readables. hsimpl. reflexivity.
+  Qed.
+
+  Lemma after_data_MF h2 r : must_flush h2 = false -> MF (after_data h2 r).
+  Proof.
+    intros Hm. unfold MF, after_data.
+    destruct r as [[|]|[pe|oe]]; [ | | | destruct oe; [ | | | | | | | | destruct (k =? SSL_WANT_READ) | ] ];
+      cbv zeta; try destruct (has_buffer _) eqn:Hb; hsimpl; try congruence.
+    intros _ _. now apply has_buffer_true.
+  Qed.
+
+  Lemma MF_step h ev : MF h -> MF (stp h ev).
+  Proof.
+    intros HM. destruct (torn h) eqn:Et.
+    { assert (stp h ev = h) as ->. { unfold step. now rewrite Et. } exact HM. }
+    destruct (must_flush h) eqn:Hm.
+    - specialize (HM Et Hm). rewrite (step_must_flush h ev Et Hm).
+      assert (Hb : has_buffer h = true) by now apply has_buffer_true.
+      rewrite Hb. unfold MF.
+      destruct (ev_w ev) as [k|].
+      + cbv zeta. destruct (negb (has_buffer (flush cfg h k))) eqn:Hb1; [hsimpl; congruence|].
+        apply negb_false_iff, has_buffer_true in Hb1.
+        destruct (reads_teared _); hsimpl; auto.
+      + destruct (reads_teared h); hsimpl; auto.
+    - destruct (reads_teared h) eqn:Hr.
+      + (* reads already torn: nothing is read, must_flush stays false *)
+        unfold step. rewrite Et.
+        set (ev' := {| ev_w := _; ev_r := _ |}).
+        destruct (handle_events_no_read h ev' (or_intror Hr)) as (h2 & b & He & _ & Ht2 & _ & _ & Hb0).
+        rewrite He. unfold MF. destruct b; hsimpl; [congruence|].
+        destruct (Hb0 eq_refl) as [Hm2 _]. congruence.
+      + destruct (ev_r ev) as [[d| |]|] eqn:Hev.
+        * destruct (step_data h ev d Et Hm Hr Hev) as (h1 & _ & F2 & _ & _ & _ & _ & E).
+          rewrite E. pose proof (hd_post_holds h1 d) as HP. destruct (hd h1 d) as [h2 r].
+          destruct HP as (Pm & _). apply after_data_MF. congruence.
+        * destruct (step_gone h ev Et Hm Hr (or_introl Hev)) as (h1 & _ & F2 & _ & _ & _ & _ & E).
+          rewrite E. cbv zeta. unfold MF. destruct (has_buffer _); hsimpl; congruence.
+        * destruct (step_gone h ev Et Hm Hr (or_intror Hev)) as (h1 & _ & F2 & _ & _ & _ & _ & E).
+          rewrite E. cbv zeta. unfold MF. destruct (has_buffer _); hsimpl; congruence.
+        * destruct (step_idle h ev Et Hm Hr Hev) as (h1 & _ & F2 & _ & _ & _ & _ & E).
+          rewrite E. unfold MF. hsimpl. congruence.
+  Qed.
+
+  Lemma run_MF evs : MF (runs evs).
+  Proof.
+    unfold run. assert (H : MF new_handler) by (unfold MF; cbn; discriminate).
+    revert H. generalize new_handler. induction evs as [|ev evs IH]; intros h H; cbn [fold_left]; [exact H|].
+    apply IH, MF_step, H.
+  Qed.
+
+  (* bytes still to be delivered, plus one per queued packet *)
+  Definition pending (h : handler) : nat := fold_right (fun mv n => S (length mv + n)) O (buffer h).
+
+  Lemma len_nat (l : bytes) : N.to_nat (len l) = length l.
+  Proof. unfold len. apply Nat2N.id. Qed.
+
+  Lemma flush_progress h k : buffer h <> [] -> 1 <= k -> 1 <= max_send cfg ->
+    (pending (flush cfg h k) < pending h)%nat.
+  Proof.
+    intros Hb Hk Hs. unfold flush, pending. destruct (buffer h) as [|mv t] eqn:Eb; [congruence|].
+    cbv zeta. set (n := N.min k (len (take (max_send cfg) mv))).
+    destruct (n =? len mv) eqn:En; hsimpl; cbn [fold_right].
+    - lia.
+    - apply N.eqb_neq in En.
+      assert (Hn : 1 <= n /\ n <= len mv).
+      { unfold n. rewrite take_firstn. unfold len in *. rewrite firstn_length.
+        destruct mv as [|x mv']; [cbn in En; unfold n in En; cbn in En; lia|].
+        cbn [length] in *. lia. }
+      rewrite drop_skipn, skipn_length. unfold len in Hn. lia.
+  Qed.
+
+  Lemma torn_fold evs : forall h, torn h = true -> fold_left stp evs h = h.
+  Proof.
+    induction evs as [|ev evs IH]; intros h Ht; cbn [fold_left]; [reflexivity|].
+    assert (stp h ev = h) as ->. { unfold step. now rewrite Ht. } now apply IH.
+  Qed.
+
+  Definition accepts (ev : event) : Prop := exists k, ev_w ev = Some k /\ 1 <= k.
+
+  Lemma drain ws : forall h, torn h = false -> must_flush h = true -> buffer h <> [] ->
+    1 <= max_send cfg -> Forall accepts ws -> (pending h <= length ws)%nat ->
+    torn (fold_left stp ws h) = true.
+  Proof.
+    induction ws as [|ev ws IH]; intros h Ht Hm Hb Hs Hw Hp.
+    - exfalso. unfold pending in Hp. destruct (buffer h); [congruence|]. cbn in Hp. lia.
+    - cbn [fold_left]. inversion Hw as [|? ? (k & Hk & Hk1) Hw']; subst.
+      rewrite (step_must_flush h ev Ht Hm).
+      assert (Hhb : has_buffer h = true) by now apply has_buffer_true.
+      rewrite Hhb, Hk. cbv zeta.
+      pose proof (flush_progress h k Hb Hk1 Hs) as Hlt.
+      destruct (flush_spec h k) as (_ & Hm1 & _ & Ht1 & _).
+      set (h1 := flush cfg h k) in *.
+      destruct (negb (has_buffer h1)) eqn:Hb1.
+      + apply torn_fold. reflexivity.
+      + apply negb_false_iff, has_buffer_true in Hb1. cbn [length] in Hp.
+        destruct (reads_teared h1).
+        * apply IH; auto; try congruence. lia.
+        * apply IH; hsimpl; auto; try congruence. unfold pending in *. hsimpl. lia.
+  Qed.
+
+  (* Once rejected, the connection is closed as soon as the client has accepted the response:
+     after at most [pending] client-writable events that each accept at least one byte, whatever
+     else the client sends meanwhile. *)
+  Theorem rejected_closes evs ws : rejected (runs evs) = true -> 1 <= max_send cfg ->
+    Forall accepts ws -> (pending (runs evs) <= length ws)%nat ->
+    torn (runs (evs ++ ws)) = true.
+  Proof.
+    intros HR Hs Hw Hp. rewrite run_app.
+    destruct (torn (runs evs)) eqn:Et; [now rewrite torn_fold|].
+    apply rejected_iff in HR as (_ & _ & [Hm|Hm]); [|congruence].
+    apply drain; auto. now apply run_MF.
+  Qed.
 End Facts.
